@@ -438,6 +438,14 @@ impl CompileTimeEvaluate for Expr {
             }
             Self::BinOp { lhs, op, rhs } => {
                 let lhs = lhs.try_constexpr_eval()?;
+
+                // `false && e` and `true || e` never run `e`: what folding `e` would report does not happen
+                if let (Op::And, Some(Value::Boolean(false))) | (Op::Or, Some(Value::Boolean(true))) =
+                    (op, lhs.as_ref())
+                {
+                    return Ok(ConstexprEvaluation::Impossible);
+                }
+
                 let rhs = rhs.try_constexpr_eval()?;
 
                 let (Some(Value::Number(lhs)), Some(Value::Number(rhs))) =
